@@ -2054,6 +2054,22 @@ func CheckMultisigPar(curve elliptic.Curve, h []byte, pkeys [][]byte, sigs [][]b
 		})
 	}
 
+	// The two-ended search below looks at keys in another order than the
+	// sequential matching of signatures to keys does: it can touch keys the
+	// latter never gets to and skip ones it would try. That is of no
+	// consequence for well-formed keys, but a malformed key fails the
+	// execution when (and only when) the matching gets to it, so decode all of
+	// them beforehand and do it the sequential way if there is a bad one.
+	// This also means nothing can panic once the workers are started.
+	pubs := make([]*keys.PublicKey, len(pkeys))
+	for i := range pkeys {
+		pub, err := keys.NewPublicKeyFromBytes(pkeys[i], curve)
+		if err != nil {
+			return checkMultisigSeq(curve, h, pkeys, sigs)
+		}
+		pubs[i] = pub
+	}
+
 	k1, k2 := 0, len(pkeys)-1
 	s1, s2 := 0, len(sigs)-1
 
@@ -2089,8 +2105,8 @@ func CheckMultisigPar(curve elliptic.Curve, h []byte, pkeys [][]byte, sigs [][]b
 		go worker(tasks, results)
 	}
 
-	tasks <- task{pub: bytesToPublicKey(pkeys[k1], curve), signum: s1}
-	tasks <- task{pub: bytesToPublicKey(pkeys[k2], curve), signum: s2}
+	tasks <- task{pub: pubs[k1], signum: s1}
+	tasks <- task{pub: pubs[k2], signum: s2}
 
 	sigok := true
 	taskCount := 2
@@ -2134,12 +2150,28 @@ loop:
 			nextKey = k2
 		}
 		taskCount++
-		tasks <- task{pub: bytesToPublicKey(pkeys[nextKey], curve), signum: nextSig}
+		tasks <- task{pub: pubs[nextKey], signum: nextSig}
 	}
 
 	close(tasks)
 
 	return sigok
+}
+
+// checkMultisigSeq matches signatures to keys in order, one by one. It panics
+// if it gets to a key that can't be decoded.
+func checkMultisigSeq(curve elliptic.Curve, h []byte, pkeys [][]byte, sigs [][]byte) bool {
+	var i, j int
+	for i < len(sigs) && j < len(pkeys) {
+		if bytesToPublicKey(pkeys[j], curve).Verify(sigs[i], h) {
+			i++
+		}
+		j++
+		if len(sigs)-i > len(pkeys)-j {
+			return false
+		}
+	}
+	return i == len(sigs)
 }
 
 func cloneIfStruct(item stackitem.Item) (stackitem.Item, bool) {
